@@ -52,12 +52,16 @@ type c05Case struct {
 	Central    map[string]c05Row `json:"central"`
 	Impl       map[string]c05Row `json:"impl"`
 	Format     string            `json:"format"`
+	Ord        string            `json:"ord"`    // "", "order", "rorder"
+	OrdCol     string            `json:"ordcol"` // "count" or "op": the select column the rows are ordered by
+	Lim        int               `json:"lim"`    // -1: no limit clause
 }
 
 type c05Result struct {
 	ID      int        `json:"id"`
 	Query   string     `json:"query"`
 	Rows    [][]string `json:"rows"`
+	Table   [][]string `json:"table"` // the rows of the terminal table (GlobalGroupSet.Result), same query
 	Problem string     `json:"problem"`
 }
 
@@ -157,7 +161,18 @@ func c05Query(c c05Case, outfile string) string {
 	if c.Wh {
 		q += " where v >= 0"
 	}
-	q += " group by g logformat " + c.Format + " outfile \"" + outfile + "\""
+	q += " group by g"
+	if c.Ord != "" {
+		col := c.Op + "(v)"
+		if c.OrdCol == "count" {
+			col = "count($line)"
+		}
+		q += " " + c.Ord + " by " + col
+	}
+	if c.Lim >= 0 {
+		q += fmt.Sprintf(" limit %d", c.Lim)
+	}
+	q += " logformat " + c.Format + " outfile \"" + outfile + "\""
 	return q
 }
 
@@ -319,6 +334,22 @@ func c05Run(c c05Case, dir string) (res c05Result) {
 		if l != "" {
 			res.Rows = append(res.Rows, strings.Split(l, ","))
 		}
+	}
+	// the table a terminal user sees (same rows, same order and limit; 10 rows when the query has no limit)
+	if table, _, err := global.Result(query, 10); err == nil {
+		tl := strings.Split(strings.TrimRight(table, "\n"), "\n")
+		for i, l := range tl {
+			if i < 2 || strings.TrimSpace(l) == "" {
+				continue
+			}
+			cells := strings.Split(l, "|")
+			for k := range cells {
+				cells[k] = strings.TrimSpace(cells[k])
+			}
+			res.Table = append(res.Table, cells)
+		}
+	} else {
+		res.Problem = "Result: " + err.Error()
 	}
 	return
 }
